@@ -249,7 +249,7 @@ void file_walk(file_t *F){
   ogg_sync_clear(&oy);
 }
 
-void file_free(file_t *F){ if(!F) return; free(F->bytes); free(F->links); free(F->serials); free(F->gpoff); free(F->start); free(F->pages); free(F->lbeg); free(F->lend); free(F->dataoff); free(F); }
+void file_free(file_t *F){ if(!F) return; free(F->bytes); free(F->links); free(F->serials); free(F->gpoff); free(F->start); free(F->pages); free(F->pages0); free(F->lbeg); free(F->lend); free(F->dataoff); free(F); }
 
 static int cmp_long(const void *a,const void *b){ long x=*(const long*)a,y=*(const long*)b; return x<y?-1:x>y; }
 
